@@ -16,7 +16,7 @@ def run(ctx):
     ctx.vh("c20", out, res)
     cases = vlib.read_tlc_export(out)
     ctx.traces_validated = len(cases)
-    ctx.nontrivial = sum(1 for c in cases if c["d"] in ("width", "reg") or c["t"]["k"] != "leaf")
+    ctx.nontrivial = sum(1 for c in cases if c["d"] in ("width", "reg", "shared") or c["t"]["k"] != "leaf")
     ctx.exhaustive = True
     for c in cases[::150]:
         ctx.sample(c)
